@@ -11,6 +11,9 @@ for d in sorted([d_ for d_ in glob.glob(os.path.join(V, 'seeded', '*_*')) if os.
     meta = json.load(open(meta_p))
     prop = meta['property']
     patch = os.path.join(d, 'patch.diff')
+    if len(sys.argv) > 1 and not d.endswith(tuple(sys.argv[1:])) and 'check_exit_with_change' in meta:  # only the named suffixes are re-run; the others keep their recorded outcome
+        rows.append((os.path.basename(d), prop, meta['check_exit_with_change'], ', '.join(meta.get('reported_by_rules', [])) or '-'))
+        continue
     ap = subprocess.run(['git', '-C', '/repo', 'apply', patch], capture_output=True, text=True)
     if ap.returncode != 0:
         meta['check_on_current_tree'] = 'patch does not apply to the current /repo: ' + ap.stderr.strip()[:200]
